@@ -318,6 +318,12 @@ func genC03(r *vh.Runner) {
 			c.Bubble(func() { hsLimitsRun(r, c, i) })
 		})
 	}
+	nhd := r.Pick(8, 300)
+	for i := 0; i < nhd; i++ {
+		r.Case(fmt.Sprintf("duplicated-handshake-datagrams/%d", i), map[string]any{"rep": i}, func(c *vh.Case) {
+			c.Bubble(func() { handshakeDuplicatesRun(r, c, i) })
+		})
+	}
 	nb := r.Pick(8, 200)
 	for i := 0; i < nb; i++ {
 		r.Case(fmt.Sprintf("short-read-buffers/%d", i), map[string]any{"rep": i}, func(c *vh.Case) {
@@ -1378,6 +1384,85 @@ func shortBufferRun(r *vh.Runner, c *vh.Case, i int) {
 		}
 	}
 	r.Nontrivial(fmt.Sprintf("short-buffers|%d", i))
+}
+
+// handshakeDuplicatesRun: the network is faithful but duplicates: copies of the
+// flow's own handshake datagrams reach the server again, from the genuine
+// address, after the session is up (at once, and a few seconds later). Long
+// after every handshake timer of the server has fired, messages written in
+// both directions still arrive.
+func handshakeDuplicatesRun(r *vh.Runner, c *vh.Case, i int) {
+	rng := vh.NewRand(r.Seed, "c03-hsdup", i)
+	w, sessions, ok := setup(r, c, rng, 1+rng.Intn(2))
+	if !ok {
+		teardown(w, sessions)
+		return
+	}
+	defer teardown(w, sessions)
+	var dups []simnet.Delivery
+	for _, ev := range w.Net.LogSince(0) {
+		if ev.Kind != "tx" || len(ev.Data) == 0 || ev.Dst != w.SrvAddr.String() {
+			continue
+		}
+		switch ev.Data[0] {
+		case 0x01, 0x03, 0x05, 0x08:
+			for _, s := range sessions {
+				if ev.Src == s.caddr.String() {
+					dups = append(dups, simnet.Delivery{Data: append([]byte(nil), ev.Data...), Src: s.caddr, Dst: w.SrvAddr, Tag: fmt.Sprintf("duplicate-handshake-%#02x", ev.Data[0])})
+				}
+			}
+		}
+	}
+	if len(dups) == 0 {
+		c.Inconclusive("no handshake datagrams in the wire log")
+		return
+	}
+	buf := make([]byte, 4096)
+	round := uint32(0)
+	exchange := func(when string) bool {
+		round++
+		for _, s := range sessions {
+			for dir, pair := range [][2]mconn{{s.cl, s.h}, {s.h, s.cl}} {
+				msg := build(r.Seed, msgID{s.idx, byte(dir), 0, round}, hdrLen+20)
+				if err := pair[0].WriteMsg(msg); err != nil {
+					c.Violate("C03:write-fails-on-live-session:duplicated-handshake-datagrams", map[string]any{"err": err.Error(), "when": when, "hidden": s.hidden})
+					return false
+				}
+				pair[1].SetReadDeadline(time.Now().Add(2 * time.Second))
+				n, err := pair[1].ReadMsg(buf)
+				pair[1].SetReadDeadline(time.Time{})
+				r.Count("evaluations", 1)
+				if err != nil || !bytes.Equal(buf[:n], msg) {
+					c.Violate("C03:message-lost-on-faithful-network:duplicated-handshake-datagrams", map[string]any{"direction": dir, "when": when, "hidden": s.hidden, "err": fmt.Sprint(err), "duplicates": len(dups)})
+					return false
+				}
+			}
+		}
+		return true
+	}
+	if !exchange("before") {
+		return
+	}
+	for _, wait := range []time.Duration{0, time.Duration(1+rng.Intn(4)) * time.Second} {
+		time.Sleep(wait)
+		for _, d := range dups {
+			if rng.Chance(0.7) {
+				w.Net.Inject(d)
+				r.Count("handshake_datagrams_duplicated", 1)
+			}
+		}
+		bub.Settle(10 * time.Millisecond)
+		if !exchange("right-after-duplicates") {
+			return
+		}
+	}
+	for _, wait := range []time.Duration{3 * time.Second, 4 * time.Second, 20 * time.Second} {
+		time.Sleep(wait)
+		if !exchange("after-" + wait.String()) {
+			return
+		}
+	}
+	r.Nontrivial(fmt.Sprintf("hsdup|%d", i))
 }
 
 // hsLimitsRun: however the client's handshake was limited in time (a timeout,
